@@ -30,10 +30,14 @@ public:
   using Element = typename internal::traits<_Derived>::template Element<Idx>;
 
   template <int Idx>
-  using MapElement = typename internal::traits<_Derived>::template MapElement<Idx>;
-
-  template <int Idx>
   using MapConstElement = typename internal::traits<_Derived>::template MapConstElement<Idx>;
+
+  // a const view (Eigen::Map<const Bundle>) only hands out const element views
+  template <int Idx>
+  using MapElement = typename std::conditional<
+    Base::IsConstView,
+    typename internal::traits<_Derived>::template MapConstElement<Idx>,
+    typename internal::traits<_Derived>::template MapElement<Idx>>::type;
 
   MANIF_GROUP_TYPEDEF
   MANIF_INHERIT_GROUP_AUTO_API
